@@ -21,9 +21,10 @@ class LoopSpec:
     """Loop invariant keyed by loop ordinal. invariant(ctx, I, vars) -> [(name, z3 Bool)];
     havoc(ctx, I, vars) replaces the variables the loop modifies by fresh values."""
 
-    def __init__(self, invariant, havoc):
+    def __init__(self, invariant, havoc, step=None):
         self.invariant = invariant
         self.havoc = havoc
+        self.step = step      # ghost update at the end of one iteration (e.g. advance a ghost index)
 
 
 class Contract:
@@ -186,6 +187,20 @@ def run_contract_case(I, contract, case, timeout_ms=None, registry=None):
                     if (c5 == "sat" and verdict == "proved") or (c5 == "unsat" and verdict == "failed"):
                         rec["verdict"] = verdict = "unknown"
                         rec["backend"] = "z3-vs-cvc5-CONTRADICTION"
+                if verdict == "failed" and hasattr(contract, "small_model") and inputs_holder.get("a") is not None:
+                    # prefer a small counterexample for the native replay
+                    try:
+                        s3 = z3.Solver()
+                        s3.set("timeout", 5000)
+                        for h in list(o.hyps) + smt.theory_facts(list(o.hyps) + [o.goal]):
+                            s3.add(h)
+                        s3.add(z3.Not(o.goal))
+                        for extra in contract.small_model(I, case, inputs_holder["a"]):
+                            s3.add(extra)
+                        if s3.check() == z3.sat:
+                            model = s3.model()
+                    except Exception:
+                        pass
                 if verdict != "proved":
                     rec["goal"] = o.goal.sexpr()[:2000]
                     rec["smt2"] = smt.to_smt2(list(o.hyps) + smt.theory_facts(list(o.hyps) + [o.goal]), o.goal)
